@@ -14,11 +14,20 @@ from ..engine import sched as S
 PROPERTY = "C18"
 LEVEL = "model_checking"
 
-TRACE_FILES = ("ecdsa/ellipticcurve.py", "ecdsa/keys.py", "ecdsa/ecdsa.py")
+TRACE_FILES = ("ecdsa/ellipticcurve.py", "ecdsa/keys.py", "ecdsa/ecdsa.py",
+               "ecdsa/util.py", "ecdsa/curves.py", "ecdsa/der.py")
 
 
 def toy():
     return catalog.first("h1", "n>p", min_n=19, max_n=31)
+
+
+def cof_toy():
+    return catalog.first("h4cyclic", min_n=5)
+
+
+STATELESS = ["load-offsubgroup-key", "load-valid-key", "randrange(19)",
+             "randrange(2^40+15)", "sigdecode(19)", "sigdecode(2^40+15)"]
 
 
 class Env(object):
@@ -99,7 +108,42 @@ def ops_table():
         c = pickle.loads(pickle.dumps(obj))
         return (aff(e.ec, c), aff(e.ec, c * 3), aff(e.ec, c + c))
 
+    def load_key(e, which):
+        """key loading on a cofactor-4 toy curve: 'bad' = on-curve point of
+        order 4 (outside the subgroup), 'good' = a subgroup point"""
+        from ecdsa.keys import VerifyingKey, MalformedPointError
+        ct = cof_toy()
+        env = ecd.ToyEnv.get(ct)
+        if which == "good":
+            P = env.mult[2]
+        else:
+            g = ct.group()
+            P = [Q for Q in g.points if g.order(Q) == 4][0]
+        data = b"\x04" + P[0].to_bytes(env.plen, "big") + \
+            P[1].to_bytes(env.plen, "big")
+        try:
+            return bytes(VerifyingKey.from_string(data, env.curve).to_string())
+        except MalformedPointError:
+            return "MalformedPointError"
+
+    def draw(e, order):
+        from ecdsa import util
+        stream = iter([b"\xff" * 8, b"\x80" + b"\x11" * 7, b"\x01" * 8,
+                       b"\x00" * 8])
+        return util.randrange(order, lambda n: next(stream)[:n])
+
+    def decode(e, order):
+        from ecdsa import util
+        l = util.orderlen(order)
+        return util.sigdecode_string(b"\x01" * l + b"\x02" * l, order)
+
     return {
+        "load-offsubgroup-key": lambda e: load_key(e, "bad"),
+        "load-valid-key": lambda e: load_key(e, "good"),
+        "randrange(19)": lambda e: draw(e, 19),
+        "randrange(2^40+15)": lambda e: draw(e, (1 << 40) + 15),
+        "sigdecode(19)": lambda e: decode(e, 19),
+        "sigdecode(2^40+15)": lambda e: decode(e, (1 << 40) + 15),
         "G*5": lambda e: aff(e.ec, e.G * 5),
         "11*G": lambda e: aff(e.ec, 11 * e.G),
         "G*(n-1)": lambda e: aff(e.ec, e.G * (e.t.n - 1)),
@@ -159,7 +203,31 @@ def probe(e):
 
 
 def expected_probe(t):
+    reset_module_state()
     return probe(Env(t))
+
+
+_MODSTATE = [None]
+
+
+def lib_modules():
+    from ecdsa import ellipticcurve, keys, ecdsa as ecdsa_mod
+    from ecdsa import util as util_mod, curves as curves_mod, der as der_mod
+    from ecdsa import numbertheory, rfc6979
+    return [ellipticcurve, keys, ecdsa_mod, util_mod, curves_mod, der_mod,
+            numbertheory, rfc6979]
+
+
+def reset_module_state():
+    """every execution (scheduled or sequential) starts from the same
+    module-level / class-level library state"""
+    if _MODSTATE[0] is None:
+        # make sure the toy curves used by the operations are registered
+        # before the snapshot is taken
+        ecd.ToyEnv.get(toy())
+        ecd.ToyEnv.get(cof_toy())
+        _MODSTATE[0] = S.ModuleState(lib_modules())
+    _MODSTATE[0].restore()
 
 
 def sequential(t, names):
@@ -171,6 +239,7 @@ def sequential(t, names):
     if len(names) > 1:
         orders.append(list(reversed(range(len(names)))))
     for order in orders:
+        reset_module_state()
         e = Env(t)
         obs = [None] * len(names)
         for i in order:
@@ -222,8 +291,11 @@ class Harness(object):
 
     def make_run(self, prefix, expect, on_point):
         from ecdsa import ellipticcurve, keys, ecdsa as ecdsa_mod
-        S.instrument_modules([ellipticcurve, keys, ecdsa_mod])
+        from ecdsa import util as util_mod, curves as curves_mod, der as der_mod
+        S.instrument_modules([ellipticcurve, keys, ecdsa_mod, util_mod,
+                              curves_mod, der_mod])
         ops = ops_table()
+        reset_module_state()
         e = Env(self.t)
         e._vkpoint_id = id(e.vk.pubkey.point)
         keep = e.shared()                 # strong refs: ids must not be reused
@@ -378,7 +450,8 @@ def main(ctx):
     ops = list(ops_table())
     jobs = []
     # mode A: all interleavings, every ordered pair of operations
-    pairs = [(a, b) for a in ops for b in ops if a <= b]
+    pairs = [(a, b) for a in ops for b in ops if a <= b
+             and a not in STATELESS and b not in STATELESS]
     if ctx.quick:
         pairs = [(a, b) for (a, b) in pairs
                  if a in MUTATORS or b in MUTATORS]
@@ -409,9 +482,17 @@ def main(ctx):
                      (trec, [[x] for x in tr], fields, False,
                       ctx.pick(2, None), ctx.pick(3000, 100000))))
     # mode B: every line, preemption bound 1 (thorough: 2 on the mutators)
-    lp = [(a, b) for a in MUTATORS for b in MUTATORS if a <= b]
+    mb = MUTATORS if not ctx.quick else [
+        m for m in MUTATORS if m not in ("11*G", "P.mul_add",
+                                         "vk.precompute(lazy)")]
+    lp = [(a, b) for a in mb for b in mb if a <= b]
     for (a, b) in lp:
         jobs.append((run_combo, "modeB-lines-bound1",
+                     (trec, [[a], [b]], fields, True, 1, 20000)))
+    # module-level state behind stateless API calls (caches of validation
+    # results, length memos, entropy buffers): concurrent calls, every line
+    for (a, b) in [(a, b) for a in STATELESS for b in STATELESS if a <= b]:
+        jobs.append((run_combo, "modeB-stateless-api-bound1",
                      (trec, [[a], [b]], fields, True, 1, 20000)))
     if not ctx.quick:
         core = ["G*5", "P.scale", "G.mul_add", "vk.precompute", "vk.verify",
